@@ -4,26 +4,47 @@ import OdxVerif.Proofs.FlatCore
 namespace OdxVerif.Codec
 open OdxVerif.Bits OdxVerif.OdxM
 
-/-- every object's bytes lie inside the message the decoder is given -/
+/-- every object's bytes lie inside the message the decoder is given, and what is read there decodes -/
 def decFits : List Obj → DecState → Prop
   | [], _ => True
-  | o :: rest, d => o.pos d.origin d.cursorByte + o.k ≤ d.msg.length ∧ decFits rest (decStep o d).2
+  | o :: rest, d => o.fitsIn d ∧ decFits rest (decStep o d).2
 
 theorem flat_fits (ovs : List (Obj × IVal)) :
-    ∀ (s : EncState) (d : DecState), d.origin = s.origin → d.cursorByte = s.cursorByte →
-      d.msg = (encAll ovs s).msg → decFits (ovs.map (·.1)) d := by
+    ∀ (s : EncState) (d : DecState), (∀ ov ∈ ovs, ov.1.ok ∧ ov.1.inRange ov.2) → AllBytes s.msg →
+      d.origin = s.origin → d.cursorByte = s.cursorByte →
+      d.msg = (encAll ovs s).msg → (encAll ovs s).warn = s.warn → decFits (ovs.map (·.1)) d := by
   induction ovs with
   | nil => intros; trivial
   | cons ov rest ih =>
-    intro s d horig hcur hmsg
+    intro s d hok hall horig hcur hmsg hw
     obtain ⟨o, v⟩ := ov
+    obtain ⟨ho, hr⟩ := hok (o, v) (List.mem_cons_self ..)
+    have h1 := encStep_warn_ge o v s
+    have h2 := encAll_warn_ge rest (encStep o v s)
+    have hrest : (encAll rest (encStep o v s)).warn = (encStep o v s).warn := by simp only [encAll] at hw; omega
     simp only [encAll] at hmsg
+    obtain ⟨hlt, hinv⟩ := o.raw_spec ho v hr
+    have hall1 := encStep_allBytes o v s hall
+    have hallF := encAll_allBytes rest _ hall1
     have hlen1 : o.pos s.origin s.cursorByte + o.k ≤ (encStep o v s).msg.length := by rw [encStep_length]; omega
     have hlenF := Nat.le_trans hlen1 (encAll_length_ge rest _)
     have hpos : o.pos d.origin d.cursorByte = o.pos s.origin s.cursorByte := by rw [horig, hcur]
-    refine ⟨by rw [hmsg, hpos]; exact hlenF, ?_⟩
-    exact ih (encStep o v s) (decStep o d).2 (by simp [decStep, encStep_origin, horig])
-      (by simp [decStep, encStep_cursor, hpos]) (by simp [decStep, hmsg])
+    -- what the decoder reads at the object's place is the pattern the encoder wrote (as in `flat_core`)
+    have hread : readNum d.msg (o.pos d.origin d.cursorByte) o.k o.hl / 2 ^ o.bp % 2 ^ o.bl = o.raw v := by
+      rw [hmsg, hpos]
+      have hfr := C01_frame' (encAll rest (encStep o v s)).msg (encStep o v s).msg hallF hall1
+        (o.pos s.origin s.cursorByte) o.bl o.bp o.hl hlenF hlen1
+        (fun j hj => encAll_frame rest _ hrest _ (encStep_own_used o v s j hj))
+      unfold Obj.k at hfr ⊢
+      rw [hfr]
+      have := read_place_roundtrip s.msg hall (o.pos s.origin s.cursorByte) o.bl o.bp (o.raw v) o.hl hlt
+      simp only at this
+      rw [encStep_msg]
+      exact this
+    refine ⟨⟨by rw [hmsg, hpos]; exact hlenF, by rw [hread]; exact o.raw_decodes ho v hr⟩, ?_⟩
+    exact ih (encStep o v s) (decStep o d).2 (fun ov h => hok ov (List.mem_cons_of_mem _ h)) hall1
+      (by simp [decStep, encStep_origin, horig])
+      (by simp [decStep, encStep_cursor, hpos]) (by simp [decStep, hmsg]) hrest
 
 /-- the model's own `decodeParams` on a list of flat objects = the pure `decAll` -/
 theorem decodeParams_objs (os : List Obj) (hok : ∀ o ∈ os, o.ok) (extra : Nat) :
@@ -40,7 +61,7 @@ theorem decodeParams_objs (os : List Obj) (hok : ∀ o ∈ os, o.ok) (extra : Na
     intro d hfit
     obtain ⟨h1, h2⟩ := hfit
     have ho := hok o (List.mem_cons_self ..)
-    have hstep := decodeParam_obj o ho (rest.length + extra) d h1
+    have hstep := decodeParam_obj o ho (rest.length + extra) d h1.1 h1.2
     have hrest := ih (fun x hx => hok x (List.mem_cons_of_mem _ hx)) (decStep o d).2 h2
     have e1 : (o :: rest).length + 2 + extra = (rest.length + 2 + extra) + 1 := by simp; omega
     have e2 : rest.length + 2 + extra = rest.length + extra + 2 := by omega
@@ -216,7 +237,7 @@ theorem flat_roundtrip (ovs : List (Obj × IVal)) (hlen : ovs.length ≤ 4000) (
   have hall : AllBytes s0.msg := by rw [hm]; intro b hb; cases hb
   let d : DecState := { msg := pdu }
   have hcore := flat_core ovs s0 d hok hall (by simp [d, ho]) (by simp [d, hc]) (by simp [d, hpdu]) (by rw [hwarn, hw])
-  have hfit := flat_fits ovs s0 d (by simp [d, ho]) (by simp [d, hc]) (by simp [d, hpdu])
+  have hfit := flat_fits ovs s0 d hok hall (by simp [d, ho]) (by simp [d, hc]) (by simp [d, hpdu]) (by rw [hwarn, hw])
   have hmap : (ovs.map (·.1)).map Obj.toParam = ovs.map fun ov => ov.1.toParam := by simp [List.map_map, Function.comp_def]
   have hdec := decodeMessage_flat (ovs.map (·.1)) (by simpa using hlen)
     (fun o ho' => by
